@@ -25,6 +25,7 @@ type Int struct {
 const (
 	atomDec uint8 = 1 // decimal text of the signed 64-bit term S
 	atomFlt uint8 = 2 // %g-style text of the float term S
+	atomQuo uint8 = 3 // strconv.Quote text of the bytes that are the arguments of the UF term S
 )
 
 type Bool struct {
